@@ -58,7 +58,7 @@ BUDGET = {
 REQUIRED = dict(
     monitors=['prior-callback', 'loglike-equals-gaussian', 'callback-never-raises', 'invalid-never-finite',
               'same-vector-same-value', 'sampled-space-order', 'ndim-handed-to-sampler'],
-    classes=['width-kind:3', 'sampler:nestle', 'sampler:multinest', 'sampler:polychord',
+    classes=['width-kind:3', 'bins:two-share-a-centre', 'sampler:nestle', 'sampler:multinest', 'sampler:polychord',
              'prior:mode-linear', 'prior:mode-log', 'prior:Uniform', 'prior:LogUniform', 'prior:Gaussian',
              'prior:LogGaussian', 'cube:interior', 'cube:face', 'cube:corner',
              'invalid:chem>1', 'invalid:inverted-nodes', 'invalid:guillot',
@@ -176,6 +176,8 @@ def observe_setup(ctx, spec, decls, layout, sampler):
     ctx.observe('sampler:' + sampler, 'native:' + spec['native_kind'], 'ndim:%d' % len(decls),
                 'width-kind:%d' % layout['width_kind'], 'T:' + spec['temperature']['kind'],
                 'ncontrib:%d' % len(spec['contributions']))
+    if layout.get('tied_centres'):
+        ctx.observe('bins:two-share-a-centre')
     for d in decls:
         ctx.observe('prior:' + d['kind'], 'component:' + d['comp'])
         if d.get('reversed'):
